@@ -302,6 +302,28 @@ InterpEvOK(ev) ==
           THEN InterpPost(x, ev.y, o, bcs, SplOf(ev.res)) /\ ProtocolOK(ev.lg, o, SupSize(x))
           ELSE singular /\ ~KnownSolvable(o, bcs))
 
+-----------------------------------------------------------------------------
+\* floating-point events (C16, C17): the inequality |F - E| <= 2^20 eps S was
+\* evaluated by the harness against the E and S this specification supplied;
+\* outcomes (no exception) are exact
+FpVerdict(ev, ty, k) == ev[k] = "ok" /\ ev[ty].ok = 1 /\ ev[ty].n >= 1
+FpEvOK(ev) ==
+  /\ (ev.op # "FpInt" => FpVerdict(ev, "float", "out_f"))
+  /\ FpVerdict(ev, "double", "out_d") /\ FpVerdict(ev, "ldouble", "out_l")
+
+\* grid construction from special floating-point values (C11):
+\* pts[i] = <<tag, n, d>>, tag 0 number, 1 NaN, 2 +Inf, 3 -Inf, 4 -0.0
+XIsNum(t) == t[1] \in {0, 4}
+XVal(t) == IF t[1] = 4 THEN RZero ELSE R(t[2], t[3])
+XLt(a, b) == CASE a[1] = 1 \/ b[1] = 1 -> FALSE                         \* NaN: every comparison is false
+               [] a[1] = 3 -> b[1] # 3                                   \* -Inf < everything but -Inf
+               [] b[1] = 2 -> a[1] # 2                                   \* everything but +Inf < +Inf
+               [] a[1] = 2 \/ b[1] = 3 -> FALSE
+               [] OTHER -> RLt(XVal(a), XVal(b))
+XGridValid(p) == Len(p) >= 2 /\ \A i \in 1..(Len(p) - 1) : XLt(p[i], p[i + 1])
+FpGridNewOK(ev) ==
+  \A k \in {"f", "d", "l"} : IF XGridValid(ev.pts) THEN ev[k] = "ok" ELSE Threw(ev, k)
+
 SupOps == {"GridNew", "GridFind", "GridAt", "SupNew", "SupRead", "SupIdx", "SupBin", "SupTri"}
 SplOps == {"SplNew", "SplEval", "SplUn", "SplBin", "SplLin"}
 EventOK(ev) == /\ Sane(ev)
@@ -310,5 +332,7 @@ EventOK(ev) == /\ Sane(ev)
                     [] ev.op \in {"OpApply", "OpBF"} -> EventOK_Ops(ev)
                     [] ev.op = "Gen" -> GenEvOK(ev)
                     [] ev.op = "Interp" -> InterpEvOK(ev)
+                    [] ev.op \in {"FpGen", "FpEval", "FpBin", "FpApply", "FpBF", "FpInt"} -> FpEvOK(ev)
+                    [] ev.op = "FpGridNew" -> FpGridNewOK(ev)
                     [] OTHER -> FALSE
 =============================================================================
